@@ -11,6 +11,14 @@ package smtp
 //	op line:  C03 s <S|L> <D|I> <T><partialmask>:<r0><r1><r2> [P<peer kind><host>.<limits>] <token>... [O:<fan-out order oracle>]
 //	observed: <replies per token> | <per-target delivery logs> | leak=<a>,<b> | panics=<n> | held=<all>,<ip>,<source>
 //
+// Recipient tokens: R:<id>:<j>:<variant>:<cls>:<flags>:<mask>[:<form>] (RCPT TO an address of domain d<j>), R= (the
+// address of the token right before, again), R+<form> (another member of the alias family of the address token
+// right before).  Forms: 0 the mailbox, 1 and b two aliases of it, 2 an alias of alias 1; the scripted modifier
+// rewrites 2 -> 1 -> 0 and b -> 0, every step into the next routed domain (vc03.Rewrite), so the targets of a
+// recipient are those of the destination block of its EFFECTIVE address and a recipient list can hold a -> b
+// together with b.  Replies belong to RCPT commands; the monitor reads the ground truth on the target's side
+// under the effective address.
+//
 // The P token is the peer address the server sees (the accepted net.Conn is wrapped: IPv4, IPv4-mapped IPv6,
 // IPv6 with and without host bits, link-local with a zone, a unix socket address) and the limits block of the
 // endpoint (concurrency and rate limiters in the all / ip / source scopes); held= is read from the real limiter
@@ -400,7 +408,7 @@ func c03Sender(kind, cls, flags, sca string, n int) (addr, params string) {
 	return lp + "@" + c03SrcDomain, ""
 }
 
-func c03Rcpt(id, j, variant, cls, flags, mask string, n int) string {
+func c03Rcpt(id, j, variant, cls, flags, mask string, n int, form byte) string {
 	lp := fmt.Sprintf("r%s-%s-%s-%s-%d", id, cls, flags, mask, n)
 	dom := "d" + j + ".example"
 	switch variant {
@@ -409,7 +417,52 @@ func c03Rcpt(id, j, variant, cls, flags, mask string, n int) string {
 	case "u":
 		lp += "é"
 	}
+	switch form {
+	case '1':
+		lp += "-a1"
+	case '2':
+		lp += "-a2"
+	case 'b':
+		lp += "-b1"
+	}
 	return lp + "@" + dom
+}
+
+// Alias forms of a recipient family (tokens "R:…:<form>" and "R+<form>"): 0 the mailbox itself, 1 and b two
+// aliases of it, 2 an alias of alias 1.  The scripted modifier (vc03.Rewrite) rewrites 2 -> 1 -> 0 and b -> 0,
+// every step into the next of the three routed domains, so the members of a family are routed by different
+// destination blocks: level = number of rewriting steps between the form and the mailbox.
+func c03FormLevel(form byte) int {
+	switch form {
+	case '1', 'b':
+		return 1
+	case '2':
+		return 2
+	}
+	return 0
+}
+
+func c03FormOK(form string) bool {
+	return form == "0" || form == "1" || form == "2" || form == "b"
+}
+
+// c03Fam is the family of the address token right before the current one.
+type c03Fam struct {
+	f     []string // fields of the R: token that opened the family
+	n     int      // its token index (part of every address of the family)
+	baseJ int      // domain of the mailbox (form 0)
+}
+
+// address, effective address (what the targets are given) and the target mask of the effective domain
+func (fam *c03Fam) member(s *c03Scn, form byte) (addr, eff string, route int) {
+	j := ((fam.baseJ-c03FormLevel(form))%3 + 3) % 3
+	addr = c03Rcpt(fam.f[1], strconv.Itoa(j), fam.f[3], fam.f[4], fam.f[5], fam.f[6], fam.n, form)
+	eff = vc03.Rewrite(c03Canon(addr))
+	ej := j
+	if form != '0' {
+		ej = (j + 1) % 3
+	}
+	return addr, eff, s.routes[ej]
 }
 
 // message text for D / B tokens: kind o (plain), r (too many Received fields), h (header larger than the limit)
@@ -491,7 +544,8 @@ type c03TokRes struct {
 	codes []int  // replies attributed to the token (0 entries never stored)
 	gone  bool   // the connection was gone before any reply
 	addr  string // R tokens: the address sent
-	route int    // R tokens: target mask of the addressed domain (-1 = none)
+	eff   string // R tokens: the address the targets are given (the modifier's rewriting of addr)
+	route int    // R tokens: target mask of the destination block that routes the recipient (-1 = none)
 }
 
 func c03Codes(r c03TokRes) string {
@@ -532,8 +586,9 @@ func c03Run(t *testing.T, s *c03Scn, addr string) []c03TokRes {
 		}
 		pending = nil
 	}
-	lastRcpt := ""
+	lastRcpt, lastEff := "", ""
 	lastRoute := -1
+	var fam *c03Fam
 	// what a client knows about the server's transaction: recipients answered 250 since the last reset.
 	// BDAT is only sent while there is one (a BDAT refused with 502 leaves its chunk on the wire to be
 	// parsed as commands)
@@ -560,7 +615,8 @@ func c03Run(t *testing.T, s *c03Scn, addr string) []c03TokRes {
 		simple := "" // a command with exactly one reply
 		// "R=" repeats the address of the token right before it (only)
 		if !(i > 0 && res[i-1].addr != "") {
-			lastRcpt, lastRoute = "", -1
+			lastRcpt, lastEff, lastRoute = "", "", -1
+			fam = nil
 		}
 		switch {
 		case tok == "E":
@@ -604,24 +660,41 @@ func c03Run(t *testing.T, s *c03Scn, addr string) []c03TokRes {
 				a, p := c03Sender(f[1], f[2], f[3], f[4], i)
 				simple = "MAIL FROM:<" + a + ">" + p
 			}
-		case f[0] == "R" && len(f) == 7:
+		case f[0] == "R" && (len(f) == 7 || len(f) == 8 && c03FormOK(f[7])):
 			if f[3] == "x" {
 				simple = "RCPT TO:missing-brackets"
 			} else {
-				lastRcpt = c03Rcpt(f[1], f[2], f[3], f[4], f[5], f[6], i)
-				j, _ := strconv.Atoi(f[2])
-				lastRoute = -1
-				if j >= 0 && j < 3 {
-					lastRoute = s.routes[j]
+				form := byte('0')
+				if len(f) == 8 {
+					form = f[7][0]
 				}
-				res[i].addr, res[i].route = lastRcpt, lastRoute
+				j, _ := strconv.Atoi(f[2])
+				if j >= 0 && j < 3 {
+					fam = &c03Fam{f: f, n: i, baseJ: (j + c03FormLevel(form)) % 3}
+					lastRcpt, lastEff, lastRoute = fam.member(s, form)
+				} else {
+					// a domain without a destination block: no rewriting, no route
+					fam = nil
+					lastRcpt = c03Rcpt(f[1], f[2], f[3], f[4], f[5], f[6], i, form)
+					lastEff, lastRoute = c03Canon(lastRcpt), -1
+				}
+				res[i].addr, res[i].eff, res[i].route = lastRcpt, lastEff, lastRoute
 				simple = "RCPT TO:<" + lastRcpt + ">"
 			}
 		case tok == "R=":
 			if lastRcpt == "" {
 				simple = "NOOP"
 			} else {
-				res[i].addr, res[i].route = lastRcpt, lastRoute
+				res[i].addr, res[i].eff, res[i].route = lastRcpt, lastEff, lastRoute
+				simple = "RCPT TO:<" + lastRcpt + ">"
+			}
+		case strings.HasPrefix(tok, "R+") && c03FormOK(tok[2:]):
+			// another member of the family of the address token right before this one
+			if fam == nil {
+				simple = "NOOP"
+			} else {
+				lastRcpt, lastEff, lastRoute = fam.member(s, tok[2])
+				res[i].addr, res[i].eff, res[i].route = lastRcpt, lastEff, lastRoute
 				simple = "RCPT TO:<" + lastRcpt + ">"
 			}
 		}
@@ -862,20 +935,24 @@ func c03Monitor(out *vh.Out, s *c03Scn, line string, res []c03TokRes, leakA, lea
 
 	// transactions as go-smtp delimits them: recipients accumulate until RSET, the end of DATA/BDAT, or the end
 	// of the connection (a repeated EHLO does not end a transaction in this server)
+	// addr is the RCPT TO argument, eff the address its targets were given (the modifier's rewriting of it),
+	// route the targets of the destination block of eff: replies belong to RCPT commands, the ground truth is
+	// read on the target's side under eff
 	type rc struct {
 		addr  string
+		eff   string
 		route int
 		tok   int
 	}
 	var accepted []rc
 	attempted := map[string]bool{}
-	holds := func(d *vc03.Del, addr string) bool { // ground truth on the target's side
+	holds := func(d *vc03.Del, eff string) bool { // ground truth on the target's side
 		if d.Commit != 1 {
 			return false
 		}
 		added := false
 		for _, e := range d.Evs {
-			if e.Op == 'R' && e.OK && e.Addr == c03Canon(addr) {
+			if e.Op == 'R' && e.OK && e.Addr == eff {
 				added = true
 			}
 		}
@@ -883,7 +960,7 @@ func c03Monitor(out *vh.Out, s *c03Scn, line string, res []c03TokRes, leakA, lea
 			return false
 		}
 		if d.Partial && len(d.Status) > 0 {
-			return d.Status[c03Canon(addr)]
+			return d.Status[eff]
 		}
 		return d.BodyOK
 	}
@@ -915,12 +992,12 @@ func c03Monitor(out *vh.Out, s *c03Scn, line string, res []c03TokRes, leakA, lea
 				}
 				ok := false
 				for _, d := range dels {
-					if d.Tgt == k && holds(d, r.addr) {
+					if d.Tgt == k && holds(d, r.eff) {
 						ok = true
 					}
 				}
 				if !ok {
-					viol("success-reply-not-committed", fmt.Sprintf("token %d: success reply, but recipient %s (token %d) is not committed on target %d", i, r.addr, r.tok, k))
+					viol("success-reply-not-committed", fmt.Sprintf("token %d: success reply, but recipient %s (token %d, delivered as %s) is not committed on target %d", i, r.addr, r.tok, r.eff, k))
 				}
 			}
 		}
@@ -974,7 +1051,7 @@ func c03Monitor(out *vh.Out, s *c03Scn, line string, res []c03TokRes, leakA, lea
 				}
 				added := false
 				for _, e := range d.Evs {
-					if e.Op == 'R' && e.OK && e.Addr == c03Canon(r.addr) {
+					if e.Op == 'R' && e.OK && e.Addr == r.eff {
 						added = true
 					}
 				}
@@ -983,18 +1060,18 @@ func c03Monitor(out *vh.Out, s *c03Scn, line string, res []c03TokRes, leakA, lea
 				}
 				bodyOK := d.BodyOK
 				if d.Partial && len(d.Status) > 0 {
-					bodyOK = d.Status[c03Canon(r.addr)]
+					bodyOK = d.Status[r.eff]
 				}
 				if d.BodySeen && !bodyOK {
 					ownTargetFailed = true
 				}
-				if holds(d, r.addr) {
+				if holds(d, r.eff) {
 					holders = append(holders, d)
 				}
 			}
 			if !ownTargetFailed {
 				for _, d := range holders {
-					viol("refused-but-committed", fmt.Sprintf("token %d: recipient %s was refused (%d) before the commit step although none of its targets refused it, but target %d %s holds the message for it", i, r.addr, finals[n], d.Tgt, c03DelStr(d)))
+					viol("refused-but-committed", fmt.Sprintf("token %d: recipient %s (delivered as %s) was refused (%d) before the commit step although none of its targets refused it, but target %d %s holds the message for it", i, r.addr, r.eff, finals[n], d.Tgt, c03DelStr(d)))
 				}
 			}
 		}
@@ -1008,9 +1085,9 @@ func c03Monitor(out *vh.Out, s *c03Scn, line string, res []c03TokRes, leakA, lea
 		}
 		switch {
 		case r.addr != "":
-			attempted[c03Canon(r.addr)] = true
+			attempted[r.eff] = true
 			if first == 250 {
-				accepted = append(accepted, rc{r.addr, r.route, i})
+				accepted = append(accepted, rc{r.addr, r.eff, r.route, i})
 			}
 		case tok == "S" && first == 250:
 			endTx()
@@ -1147,6 +1224,78 @@ func (g *c03Gen) data() string {
 	}
 }
 
+// c03Alias turns recipients of the finished script into alias families (recipient lists whose members are
+// rewritten into one another by the modifier) and crosses them with body-stage failures.
+func c03Alias(r *vh.Rng, s *c03Scn) {
+	pct := 14
+	if s.lmtp {
+		pct = 36
+	}
+	patterns := [][]string{
+		{"2", "1"}, {"1", "2"}, // a -> b and b is a recipient too (itself rewritten), both orders
+		{"2", "1"}, {"1", "2"},
+		{"2", "1", "0"}, {"0", "1", "2"}, {"1", "2", "0"}, // a chain down to the mailbox, all supplied
+		{"1", "0"}, {"0", "1"}, // an alias and its own rewriting result
+		{"1", "b"}, {"b", "1", "0"}, {"0", "b", "1"}, // two aliases of one mailbox
+		{"2", "b"}, {"1"}, {"2"},
+	}
+	var out []string
+	collide := false
+	boost := false // the next message of the transaction gets a body-stage failure
+	for _, t := range s.toks {
+		bare := strings.TrimSuffix(t, "~")
+		tilde := t[len(bare):]
+		f := strings.Split(bare, ":")
+		switch {
+		case f[0] == "M":
+			boost = false
+		case boost && (f[0] == "D" || f[0] == "Bf" || f[0] == "Bp") && len(f) == 6 && f[1] == "o":
+			boost = false
+			switch r.Intn(5) {
+			case 0:
+				f[3] = "c"
+			case 1:
+				f[3] = "m"
+			default:
+				f[4] = strconv.Itoa(1 + r.Intn(1<<s.nT-1))
+			}
+			t = strings.Join(f, ":") + tilde
+		}
+		out = append(out, t)
+		if f[0] != "R" || len(f) != 7 || f[3] == "x" || len(out) > 24 || !r.Chance(pct) {
+			continue
+		}
+		pat := patterns[r.Intn(len(patterns))]
+		if pat[0] != "0" {
+			out[len(out)-1] = bare + ":" + pat[0] + tilde
+		}
+		same := 0 // members delivered under the mailbox address itself
+		for k, fm := range pat {
+			if k > 0 {
+				out = append(out, "R+"+fm+tilde)
+			}
+			if fm != "2" {
+				same++
+			}
+		}
+		if same > 1 {
+			collide = true
+		}
+		if r.Chance(65) {
+			boost = true
+		}
+	}
+	s.toks = out
+	// Two different RCPT TO addresses delivered under ONE effective address to a target that reports per-recipient
+	// results: the pipeline's reverse translation is a map keyed by the effective address, both results come
+	// back under the later address (known finding KF-C09-1, judged by the C09 check).  Such recipient lists are
+	// generated with targets that do not report per recipient; chains without a shared effective address
+	// (a -> b, b -> c) keep the reporting targets and go through the translation.
+	if collide && s.lmtp {
+		s.partial = 0
+	}
+}
+
 func c03GenScn(r *vh.Rng) *c03Scn {
 	s := &c03Scn{lmtp: r.Chance(45), deferred: r.Chance(60)}
 	s.nT = 1 + r.Intn(3)
@@ -1181,6 +1330,7 @@ func c03GenScn(r *vh.Rng) *c03Scn {
 				s.toks[i] = "M:I:" + t[4:]
 			}
 		}
+		c03Alias(r, s)
 	}(r.Fork())
 	if r.Chance(80) {
 		// a plausible client, then damaged
